@@ -473,6 +473,28 @@ def delete (s : State) (t : Nat) (cond : Cond) : State × Res :=
   | some _ =>
     finishAuto (txDelete (begin s).1 (begin s).2 t cond) (begin s).2
 
+/-! ## batch_insert -/
+
+/-- the table one appended row leaves (`slab.insert`, then `index_add` / `btree_index_add` per indexed column) -/
+def insertRow (T : Table) (vals : List Val) : Table :=
+  { T with rows := T.rows ++ [{ alive := true, vals := vals }]
+           hashE := T.hashOn.foldl (fun es c => idxAdd (c, val vals c, T.rows.length) es) T.hashE
+           btreeE := T.btreeOn.foldl (fun es c => idxAdd (c, val vals c, T.rows.length) es) T.btreeE }
+
+/-- `batch_insert(table, rows)`: NOT built on a transaction — no internal transaction id is consumed, no
+    row lock is taken, no undo entry is written.  An empty batch answers before the table is looked at;
+    every row is validated before the first one is stored (`NullNotAllowed`: nothing inserted); then the
+    rows are appended one by one with their index entries.  Answer: the number of rows (their ids are the
+    next slab positions). -/
+def batchInsert (s : State) (t : Nat) (rows : List (List Val)) : State × Res :=
+  if rows.isEmpty then (s, .okN 0)
+  else
+    match s.tables t with
+    | none => (s, .err .tableNotFound)
+    | some T =>
+      if rows.any (rowBad T) then (s, .err .badInput)
+      else (setTable s t (rows.foldl insertRow T), .okN rows.length)
+
 /-! ## DDL -/
 
 def createTable (s : State) (ncols : Nat) (nullable : List Nat) : State × Res :=
@@ -638,6 +660,7 @@ inductive Op where
   | insert (t : Nat) (vals : List Val)
   | update (t : Nat) (cond : Cond) (upd : List (Nat × Val))
   | delete (t : Nat) (cond : Cond)
+  | batchInsert (t : Nat) (rows : List (List Val))
   | createTable (ncols : Nat) (nullable : List Nat)
   | createIndex (t c : Nat)
   | createBtree (t c : Nat)
@@ -659,6 +682,7 @@ def step (s : State) (op : Op) : State × Res :=
   | .insert t vals => insert s t vals
   | .update t cond upd => update s t cond upd
   | .delete t cond => delete s t cond
+  | .batchInsert t rows => batchInsert s t rows
   | .createTable n nl => createTable s n nl
   | .createIndex t c => createIndex s t c
   | .createBtree t c => createBtree s t c
